@@ -6,6 +6,7 @@ import Lean.Data.Json
 import Driver.Codec
 import JaxVerif.Model.Config
 import JaxVerif.Model.Gensym
+import JaxVerif.Model.Struct
 
 open Lean JV
 
@@ -117,6 +118,12 @@ def dispatch1 (j : Json) : Except String Json := do
       let ps ← getStrList j "params"
       let (names, scope) := generatedNames fn ps (getBoolD j "output" false)
       return Json.mkObj [("params", jarr (names.map jstr)), ("scope", jarr (scope.map jstr))]
+  | "structure" => do
+      let x ← parseObj (← j.getObjVal? "x")
+      return jstr ("PyTreeDef(" ++ renderDef x.structure ++ ")")
+  | "validstruct" => do
+      let st ← getStr j "s"
+      return Json.bool (validStruct st.toList)
   | "ping" => return jstr "pong"
   | _ => throw s!"unknown cmd {cmd}"
 
